@@ -34,6 +34,18 @@ pub struct StoreEvent {
 
 thread_local! {
     pub static EVENTS: RefCell<Vec<StoreEvent>> = const { RefCell::new(Vec::new()) };
+    /// keep the payload of data-file PUTs too (scenarios whose oracle must read files that are deleted later)
+    pub static KEEP_DATA_PAYLOADS: std::cell::Cell<bool> = const { std::cell::Cell::new(false) };
+}
+thread_local! {
+    /// called at the instant a DELETE takes effect (before the object disappears)
+    pub static DELETE_OBSERVER: RefCell<Option<Box<dyn Fn(&str)>>> = const { RefCell::new(None) };
+}
+pub fn set_delete_observer(f: Box<dyn Fn(&str)>) {
+    DELETE_OBSERVER.with(|o| *o.borrow_mut() = Some(f));
+}
+pub fn keep_data_payloads(on: bool) {
+    KEEP_DATA_PAYLOADS.with(|k| k.set(on));
 }
 
 pub fn events() -> Vec<StoreEvent> {
@@ -190,7 +202,8 @@ impl ObjectStore for SimStore {
         }
         let bytes: Bytes = Bytes::from(payload.as_ref().iter().flat_map(|b| b.iter().copied()).collect::<Vec<u8>>());
         let r = self.inner.put_opts(location, payload, opts).await;
-        let keep = if !path.ends_with(".parquet") && bytes.len() <= (1 << 20) { Some(bytes) } else { None };
+        let keep_data = KEEP_DATA_PAYLOADS.with(|k| k.get());
+        let keep = if (keep_data || !path.ends_with(".parquet")) && bytes.len() <= (1 << 20) { Some(bytes) } else { None };
         match &r {
             Ok(pr) => self.record("PUT", &path, mode, true, String::new(), fault, keep, pr.e_tag.clone()),
             Err(e) => self.record("PUT", &path, mode, false, err_kind(e), fault, None, None),
@@ -242,6 +255,11 @@ impl ObjectStore for SimStore {
             self.record("DELETE", &path, String::new(), false, "injected(before)".into(), fault, None, None);
             return Err(Self::generic_err("before effect"));
         }
+        DELETE_OBSERVER.with(|o| {
+            if let Some(f) = o.borrow().as_ref() {
+                f(&path)
+            }
+        });
         let r = self.inner.delete(location).await;
         match &r {
             Ok(_) => self.record("DELETE", &path, String::new(), true, String::new(), fault, None, None),
